@@ -28,9 +28,12 @@ func (in *Interp) formatInt(t *smt.Term, base int, signed bool) Value {
 		return &StrVal{C: strconv.FormatUint(t.Val, base)}
 	}
 	x, w := effWidth(t)
-	if w == t.W && w > 16 {
+	if w > 3 {
 		// narrow through the solver: the smallest of 3/4/8/16 bits the value provably fits in
 		for _, nw := range []int{3, 4, 8, 16} {
+			if nw >= w {
+				break
+			}
 			if !in.feasible(st.Cmp(smt.OpBvUle, st.BV(uint64(1)<<uint(nw), t.W), t)) {
 				x, w = st.Extract(nw-1, 0, t), nw
 				break
@@ -101,6 +104,9 @@ func (in *Interp) formatInt(t *smt.Term, base int, signed bool) Value {
 				p *= 10
 			}
 			ge := st.Cmp(smt.OpBvUle, st.BV(p, W), xx) // value has at least n digits
+			if !in.feasible(ge) {
+				break // longer forms cannot occur on this path
+			}
 			out = in.mergeGE(ge, s, out)
 		}
 		return out
